@@ -88,26 +88,39 @@ func runC11(c *C11Case) (string, c11Facts) {
 	pool := c.pool()
 	np := len(pool)
 	// ---- solo results (the oracle), fresh state ----
+	// (in the process that leaves the library's default cache untouched the solo pass runs AFTER the
+	// goroutines, so that the very first validations of the process are the concurrent ones)
 	solo := make([]outcome, np)
 	unordered := make([]bool, np)
-	freshState()
-	for i, call := range pool {
-		solo[i] = call.prepare().run()
-		_, unordered[i] = call.predict()
-		if solo[i].Panic != "" {
-			return fmt.Sprintf("pool call %d panics when run alone: %s", i, solo[i].Panic), facts
-		}
-	}
 	privSolo := make([]outcome, c.G)
-	if c.Private {
-		for g := 0; g < c.G; g++ {
-			privSolo[g] = privateCall(g).prepare().run()
+	soloPass := func() string {
+		freshState()
+		for i, call := range pool {
+			solo[i] = call.prepare().run()
+			if solo[i].Panic != "" {
+				return fmt.Sprintf("pool call %d panics when run alone: %s", i, solo[i].Panic)
+			}
+		}
+		if c.Private {
+			for g := 0; g < c.G; g++ {
+				privSolo[g] = privateCall(g).prepare().run()
+			}
+		}
+		return ""
+	}
+	for i, call := range pool {
+		_, unordered[i] = call.predict()
+	}
+	if proxyInstalled {
+		if m := soloPass(); m != "" {
+			return m, facts
 		}
 	}
 	// ---- build everything before the goroutines start ----
 	var evictions int64
-	backend := backendFor(c.Cache, &evictions)
-	proxy.set(backend)
+	if proxyInstalled {
+		proxy.set(backendFor(c.Cache, &evictions))
+	}
 	old := runtime.GOMAXPROCS(c.Procs)
 	defer runtime.GOMAXPROCS(old)
 	type worker struct {
@@ -170,6 +183,11 @@ func runC11(c *C11Case) (string, c11Facts) {
 		return "INCONCLUSIVE: watchdog fired but the workers are not blocked in the library", facts
 	}
 	facts.evictions = atomic.LoadInt64(&evictions)
+	if !proxyInstalled {
+		if m := soloPass(); m != "" {
+			return m, facts
+		}
+	}
 	// ---- compare with the solo results ----
 	for g, w := range ws {
 		if w.panic != nil {
@@ -322,6 +340,23 @@ func TestC11(t *testing.T) {
 	cleanup := setupFS()
 	defer cleanup()
 	rapid.Check(t, func(t *rapid.T) { c11Once(t, genC11Case(t), "concurrent-vs-solo") })
+}
+
+// TestC11Default runs in a process that never calls SetStructTypeCache: the library's own
+// default cache object serves the goroutines, and the first validations of the process are
+// concurrent ones (lazy initialisation of shared state would race exactly there).
+func TestC11Default(t *testing.T) {
+	if proxyInstalled {
+		t.Skip("runs in the process that leaves the default cache in place")
+	}
+	cleanup := setupFS()
+	defer cleanup()
+	rapid.Check(t, func(t *rapid.T) {
+		c := genC11Case(t)
+		c.Cache = "default"
+		ev.Class("default-cache-process")
+		c11Once(t, c, "default-cache")
+	})
 }
 
 func TestC11Replay(t *testing.T) {
